@@ -35,7 +35,7 @@ S(p) ==
    ev |-> [evreg |-> 0, wfe |-> 0, wfi |-> 0],
    cfg |-> [arch |-> 7, pmsa |-> TRUE, sec |-> p.sec, virt |-> FALSE, lpae |-> FALSE, v7r |-> FALSE]]
 Init == sc = [stage |-> 0]
-Pick == sc.stage = 0 /\ \E kind \in Kinds, cp \in {0, 7, 9, 12, 13}, acc \in 0..3, nsacr \in {0, 1}, ns \in {0, 1}, sec \in BOOLEAN,
+Pick == sc.stage = 0 /\ \E kind \in Kinds, cp \in {0, 7, 9, 12, 13, 14, 15}, acc \in 0..3, nsacr \in {0, 1}, ns \in {0, 1}, sec \in BOOLEAN,
                           mode \in {16, 19, 17, 31, 22} :
           /\ (mode = 22 => sec) /\ (~sec => ns = 0)
           /\ sc' = [stage |-> 1, kind |-> kind, cp |-> cp, acc |-> acc, nsacr |-> nsacr, ns |-> ns, sec |-> sec, mode |-> mode]
@@ -45,7 +45,18 @@ Done == sc.stage = 1
 R == StepF(S(sc), [n |-> "Exec", w |-> Word(sc.kind, sc.cp), len |-> 32])
 NonSecure == sc.sec /\ sc.ns = 1 /\ sc.mode # 22
 Denied == (NonSecure /\ sc.nsacr = 0) \/ sc.acc = 0 \/ (sc.acc = 1 /\ sc.mode = 16)
-GatingOK == Done =>
+\* CP14 / CP15: the access-control registers do not govern these spaces; which instruction forms exist does.
+\* (property-side statement: a CDP, a CP15 LDC/STC and a CP14 MCRR do not exist = UNDEFINED; the register and
+\* register-pair transfers reach the system-register decode, which the emulator documents as not implemented;
+\* the answer does not depend on CPACR / NSACR / security state)
+SysSpace == Done /\ sc.cp \in {14, 15}
+SysFormsOK == SysSpace =>
+  IF sc.kind = "CDP" \/ (sc.cp = 15 /\ sc.kind \in {"LDC", "STC"}) \/ (sc.cp = 14 /\ sc.kind \in {"MCRR", "MRRC", "LDC", "STC"})   \* (the MRRC word has opc1 = 1, the LDC/STC words CRd = c1: no such CP14 registers)
+  THEN R.exact /\ R.out = "undef" /\ R.s = TakeUndefInstr(S(sc))
+  ELSE (~R.exact) /\ R.out \in {"notimpl:cp15_instr_decode", "notimpl:cp14_debug_instr_decode"}
+SysIndepOK == SysSpace =>
+  R.out = StepF(S([sc EXCEPT !.acc = 3, !.nsacr = 1]), [n |-> "Exec", w |-> Word(sc.kind, sc.cp), len |-> 32]).out
+GatingOK == (Done /\ sc.cp < 14) =>
   IF Denied THEN R.exact /\ R.out = "undef" /\ R.s = TakeUndefInstr(S(sc))
   ELSE IF sc.acc = 2 THEN ~R.exact
   ELSE (~R.exact) /\ R.out \in {"notimpl:coproc", "notimpl:coproc-mem"}
